@@ -1,3 +1,5 @@
+//go:build go1.21
+
 // Package vsync stands in for "sync" in rewritten files (import sync ".../vsched/vsync").
 package vsync
 
